@@ -23,3 +23,19 @@ _add("other", ["core::slice::copy_from_slice", "core::slice::clone_from_slice", 
                "std::char::from_digit", "core::slice::rotate_left", "core::slice::rotate_right", "core::slice::select_nth_unstable", "std::time::Instant::duration_since",
                "core::num::<impl usize>::pow", "core::num::pow", "core::num::div_ceil", "core::num::next_power_of_two", "core::num::abs", "core::num::ilog2", "core::num::ilog10"],
      "partial std function")
+
+
+# Calls into crates other than std / core / alloc and the workspace's own crates.  Unlike std (a blacklist), these are a
+# *whitelist*: each entry was read in the dependency's source and returns normally for every argument (errors are values).
+# Any other external call is an obligation of the C01 ledger ("unreviewed external call").
+EXTERNAL_TOTAL = {
+    "chrono::DateTime::parse_from_str": "returns ParseResult; out-of-range fields are Err",
+    "chrono::Local::now": "reads the clock", "chrono::Utc::now": "reads the clock",
+    "chrono::NaiveDateTime::parse_from_str": "returns ParseResult", "chrono::DateTime::parse_from_rfc3339": "returns ParseResult",
+    "chrono::DateTime::with_timezone": "total conversion", "chrono::DateTime::naive_utc": "total projection",
+    "chrono::DateTime::timestamp": "total projection",
+    "atty::isnt": "isatty query", "atty::is": "isatty query",
+    "clap::Parser::parse": "prints usage and exits with status 2 on bad arguments: an exit, not a panic",
+    "serde_json::to_string": "returns Result",
+}
+OWN_CRATES = ("crate", "chiritori")
